@@ -13,6 +13,7 @@ mod ack_emit_model;
 mod tfrc;
 mod codec;
 mod hc_twin;
+mod hc_cycle;
 mod alloc;
 mod alloc_run;
 
@@ -195,6 +196,18 @@ fn main() {
             }
             progress(&progress_path, "done");
             eprintln!("hc-twin: runs={} injected={} lines={}", runs, inj, tr.lines);
+        }
+        "hc-cycle" => {
+            let seed = geti(&m, "seed", 1);
+            let runs = geti(&m, "runs", 2);
+            let start = geti(&m, "start", 0);
+            let mut tr = Trace::create(&out);
+            for i in start..start + runs {
+                progress(&progress_path, &format!("{}", i));
+                hc_cycle::run_cycle(&mut tr, i, mix(seed ^ 0xC1C1E, i));
+            }
+            progress(&progress_path, "done");
+            eprintln!("hc-cycle: runs={} lines={}", runs, tr.lines);
         }
         "hc-model" => {
             let input = m.get("in").cloned().unwrap_or_default();
